@@ -258,7 +258,12 @@ func runConcScenario(b *vlib.Batch, sc concScen, dir string) {
 	var setterDone atomic.Bool
 	var hookRnd atomic.Uint64
 	hookRnd.Store(sc.Seed | 1)
-	rnd := func() uint64 { x := hookRnd.Add(0x9e3779b97f4a7c15); x ^= x >> 31; x *= 0xbf58476d1ce4e5b9; return x ^ (x >> 29) }
+	rnd := func() uint64 {
+		x := hookRnd.Add(0x9e3779b97f4a7c15)
+		x ^= x >> 31
+		x *= 0xbf58476d1ce4e5b9
+		return x ^ (x >> 29)
+	}
 	deadline := time.Now().Add(90 * time.Second)
 
 	// hook plans
@@ -348,7 +353,8 @@ func runConcScenario(b *vlib.Batch, sc concScen, dir string) {
 	recs := make([][]readRec, sc.Readers)
 	var wg sync.WaitGroup
 	start := make(chan struct{})
-	const capReads = 30000
+	const capReads = 60000
+	var epoch atomic.Int64 // advanced by the setter at every call and return
 	for ri := 0; ri < sc.Readers; ri++ {
 		wg.Add(1)
 		go func(ri int) {
@@ -358,8 +364,11 @@ func runConcScenario(b *vlib.Batch, sc concScen, dir string) {
 			var mine []readRec
 			<-start
 			tail := -1
+			budget := 40 + rr.Intn(80)
+			seenEpoch, inEpoch := int64(-1), 0
 			for n := 0; ; n++ {
-				if tail < 0 && n >= sc.MinReads && setterDone.Load() {
+				done := setterDone.Load()
+				if tail < 0 && n >= sc.MinReads && done {
 					tail = 4 // a few more reads that begin after everything returned
 				}
 				if tail == 0 || n >= capReads {
@@ -370,6 +379,24 @@ func runConcScenario(b *vlib.Batch, sc concScen, dir string) {
 				}
 				if n&255 == 255 && time.Now().After(deadline) {
 					break
+				}
+				if sc.Log && !done {
+					// spread the reads over the whole script: a bounded number per setter phase
+					e := epoch.Load()
+					if e != seenEpoch {
+						seenEpoch, inEpoch = e, 0
+					}
+					inEpoch++
+					if inEpoch > budget {
+						for spin := 0; epoch.Load() == e && !setterDone.Load(); spin++ {
+							runtime.Gosched()
+							if spin&1023 == 1023 && time.Now().After(deadline) {
+								break
+							}
+						}
+						n--
+						continue
+					}
 				}
 				var g *concGetter
 				kind := uint8(0)
@@ -423,6 +450,7 @@ func runConcScenario(b *vlib.Batch, sc concScen, dir string) {
 		}
 		curOp.Store(int32(i))
 		if sc.Log {
+			epoch.Add(1)
 			op.call = seq.Add(1)
 		}
 		var err error
@@ -449,6 +477,7 @@ func runConcScenario(b *vlib.Batch, sc concScen, dir string) {
 		}
 		if sc.Log {
 			op.ret = seq.Add(1)
+			epoch.Add(1)
 		}
 		curOp.Store(-1)
 		if err != nil {
@@ -580,12 +609,16 @@ func runConcScenario(b *vlib.Batch, sc concScen, dir string) {
 			if ok {
 				continue
 			}
-			kind := "stale"
-			switch {
-			case !written[rec.val]:
-				kind = "foreign-value"
-			case rec.val > effAt(m) && rec.val > effAt(k):
-				kind = "future-value"
+			kind := "foreign-value" // never an effective value
+			for j := m + 1; j <= n; j++ {
+				if effAt(j) == rec.val {
+					kind = "future-value" // only operations that had not begun produce it
+				}
+			}
+			for j := 0; j < k; j++ {
+				if effAt(j) == rec.val {
+					kind = "stale" // overwritten by an operation that had returned
+				}
 			}
 			lastOp := "initial"
 			if k > 0 {
